@@ -4,7 +4,7 @@ C09 — Executions terminate with every job settled (no job waits for resources 
 Model: `RedunModel.Model.SchedCore`, mirroring /repo after the `fix:` commit "wake jobs waiting for
 resource limits when a nominated job is served by CSE or the cache".
 -/
-import RedunModel.Lemmas.SchedCore
+import RedunModel.Lemmas.SchedLive
 namespace RedunModel.C09
 open RedunModel.SchedCore
 
@@ -80,5 +80,88 @@ theorem feasible_of_check (p : Prog)
 
 example : Feasible hangProg := feasible_of_check _ (by decide)
 example : (run hangProg hangSchedule).pendingLimits = [] := by decide
+
+
+/-! ### deadlock freedom (the liveness half) -/
+
+/-- Deadlock freedom: for every real (non-dry) run of a program in which no job demands more than its
+limit and no job (transitively) calls a job with its own cache key (`Ranked`), and for every schedule,
+a state in which the scheduler is idle (no queued event, no job in flight) has settled the workflow
+promise.  With `waiting_once`/`no_stuck` this is "every maximal run ends with the root settled": a run can
+only stop in an idle state, and an idle state is a finished one.
+(`ProvScope p` is not needed for this direction; it is listed in `deadlock_without_rank_refuted` to show
+that the rank hypothesis is the one that cannot be dropped.) -/
+theorem no_deadlock (p : Prog) (hd : p.dryrun = false) (hf : Feasible p) (hr : Ranked p) (s : S)
+    (h : Reachable p s) (hq : s.queue = []) (hi : ∀ j, s.inflight j = false) : s.finished = true :=
+  idle_finished (reachable_live p hd s h) ⟨hq, no_stuck p hf s h hq hi, hi⟩ hr
+
+/-- the lifecycle behind it: in every reachable state of a real run every pending job is queued for
+execution / waiting for limits, in flight, has a completion event queued, waits for at least one pending
+child, or is collapsed onto a pending non-collapsed job with the same cache key. -/
+theorem pending_job_has_activity (p : Prog) (hd : p.dryrun = false) (s : S) (h : Reachable p s) (j : JobId)
+    (hj : j < s.next) (hp : (s.jobs j).status = Status.pending) :
+    1 ≤ EW s j ∨ s.inflight j = true ∨ Q s j ∨
+      ((s.jobs j).evalFailed = false ∧ ∃ c, c < s.next ∧ (s.jobs c).parent = some j ∧ (s.jobs c).status = Status.pending) ∨
+      (∃ X, j ∈ (s.jobs X).twins ∧ (s.jobs X).status = Status.pending ∧ X < s.next ∧
+        (∀ Y, X ∉ (s.jobs Y).twins) ∧ (spec p s X).key = (spec p s j).key) := by
+  have hl := reachable_live p hd s h
+  rcases hl.ph j hj hp (by simp) with a | a | a | a | ⟨X, a1, a2, a3, a4, a5⟩
+  · exact Or.inl a
+  · exact Or.inr (Or.inl a)
+  · exact Or.inr (Or.inr (Or.inl a))
+  · refine Or.inr (Or.inr (Or.inr (Or.inl ⟨a.1, ?_⟩)))
+    have hpos : 0 < cntPend s j := Nat.lt_of_lt_of_le a.2 (hl.cnt j a.1)
+    obtain ⟨c, hlt, hk⟩ := cntTo_pos_exists hpos
+    unfold kidPend at hk
+    simp only [Bool.and_eq_true, decide_eq_true_eq] at hk
+    exact ⟨c, hlt, hk.1, hk.2⟩
+  · refine Or.inr (Or.inr (Or.inr (Or.inr ⟨X, a1, ?_, a3, fun Y hY => a4 ⟨Y, hY⟩, a5⟩)))
+    rcases a2 with b | b
+    · exact b
+    · simp at b
+
+/-! non-vacuity of `no_deadlock`: `hangProg` satisfies the hypotheses, and the completed former hanging
+schedule reaches an idle state -/
+def hangScheduleRest : List Choice := [.pop, .pop, .pop, .pop, .complete 3, .pop, .pop, .pop]
+
+example : Ranked hangProg := ranked_of_check _ (fun k => if k = 0 then 1 else 0) (by decide)
+example : (run hangProg (hangSchedule ++ hangScheduleRest)).queue = [] ∧
+    (∀ j, j < (run hangProg (hangSchedule ++ hangScheduleRest)).next →
+      (run hangProg (hangSchedule ++ hangScheduleRest)).inflight j = false) ∧
+    (run hangProg (hangSchedule ++ hangScheduleRest)).finished = true := by decide
+example : (run hangProg (hangSchedule ++ hangScheduleRest)).finished = true :=
+  no_deadlock hangProg rfl (feasible_of_check _ (by decide))
+    (ranked_of_check _ (fun k => if k = 0 then 1 else 0) (by decide)) _ (reachable_run _ _) (by decide)
+    (inflight_none_of_bounded _ _ (reachable_run _ _) (by decide))
+
+/-! the rank hypothesis cannot be dropped: `f(x) → g(x) → f(x)` (the inner `f(x)` has the cache key of the
+root) collapses the inner call onto the root job, which waits for it: an idle, unfinished state. -/
+def cycProg : Prog :=
+  { specs := [ { key := 0, ctx := 0, limits := [], scope := .backend, cseOk := true, prov := true, execOk := true,
+                 fails := false, pre := .miss, children := [1] },     -- f(x)
+               { key := 1, ctx := 0, limits := [], scope := .backend, cseOk := true, prov := true, execOk := true,
+                 fails := false, pre := .miss, children := [2] },     -- g(x)
+               { key := 0, ctx := 0, limits := [], scope := .backend, cseOk := true, prov := true, execOk := true,
+                 fails := false, pre := .miss, children := [] } ],    -- f(x) again
+    limit := fun _ => 1, dryrun := false }
+
+def cycSchedule : List Choice := [.pop, .complete 0, .pop, .pop, .complete 1, .pop, .pop]
+
+/-- REFUTED without the rank hypothesis: every other hypothesis of `no_deadlock` (and `ProvScope`) holds
+for `cycProg`, yet a reachable idle state is not finished (job 2 is collapsed onto job 0, its ancestor). -/
+theorem deadlock_without_rank_refuted :
+    ∃ p s, p.dryrun = false ∧ Feasible p ∧ ProvScope p ∧ Reachable p s ∧ s.queue = [] ∧
+      (∀ j, s.inflight j = false) ∧ s.finished = false ∧ 2 ∈ (s.jobs 0).twins :=
+  ⟨cycProg, run cycProg cycSchedule, rfl, feasible_of_check _ (by decide), provScope_of_check _ (by decide),
+    reachable_run _ _, by decide, inflight_none_of_bounded _ _ (reachable_run _ _) (by decide), by decide, by decide⟩
+
+/-- …and consequently `cycProg` has no rank function. -/
+theorem cycProg_not_ranked : ¬ Ranked cycProg := by
+  intro hr
+  obtain ⟨p, s, _⟩ := deadlock_without_rank_refuted
+  have h1 := no_deadlock cycProg rfl (feasible_of_check _ (by decide)) hr (run cycProg cycSchedule)
+    (reachable_run _ _) (by decide) (inflight_none_of_bounded _ _ (reachable_run _ _) (by decide))
+  have h2 : (run cycProg cycSchedule).finished = false := by decide
+  rw [h2] at h1; exact absurd h1 (by simp)
 
 end RedunModel.C09
